@@ -1,5 +1,5 @@
 #!/usr/bin/env python3
-"""C18 -- images: exported files and inline image data reproduce the samples exactly (DESIGN.md 3.C18)."""
+"""C18 -- images: exported files and inline image data reproduce the samples exactly (DESIGN.md section 4, C18)."""
 import io
 import os
 import shutil
@@ -46,7 +46,7 @@ MANIFEST_ENTRY = {
             "sequence removed) and the scan resumes right after the terminator. Refuted and recorded: data ending in CR "
             "loses that byte when the separator is LF.",
     "note": "Trusted: Coq kernel, hand model tied by differential runs, the harness BMP decoder.",
-    "design_ref": "DESIGN.md 3.C18",
+    "design_ref": "DESIGN.md section 4, C18",
 }
 
 WORK = os.path.join(common.WORK, "c18")
